@@ -31,14 +31,14 @@ import (
 // ---- independent PROXY protocol encoder (from the HAProxy spec) ---------------------------
 
 type Hdr struct {
-	V     int    `json:"v"`     // 1 | 2
-	Cmd   string `json:"cmd"`   // PROXY | LOCAL (v2)
-	Fam   string `json:"fam"`   // TCP4 TCP6 UDP4 UDP6 UNKNOWN/UNSPEC
+	V     int    `json:"v"`   // 1 | 2
+	Cmd   string `json:"cmd"` // PROXY | LOCAL (v2)
+	Fam   string `json:"fam"` // TCP4 TCP6 UDP4 UDP6 UNKNOWN/UNSPEC
 	Src   string `json:"src"`
 	Dst   string `json:"dst"`
 	SPort int    `json:"sport"`
 	DPort int    `json:"dport"`
-	TLV   int    `json:"tlv"`   // -1 none, else one TLV (type 0x04 NOOP) with this many value bytes
+	TLV   int    `json:"tlv"` // -1 none, else one TLV (type 0x04 NOOP) with this many value bytes
 }
 
 var v2sig = []byte{0x0D, 0x0A, 0x0D, 0x0A, 0x00, 0x0D, 0x0A, 0x51, 0x55, 0x49, 0x54, 0x0A}
@@ -382,11 +382,11 @@ func bounds(tier string, sc *Scn) explore.Bounds {
 
 func main() {
 	runner.Main(&runner.Harness{
-		ID:    "C12",
-		Level: "model_checking",
-		Rule: "PROXY headers from an independent encoder (v1 TCP4/TCP6/UNKNOWN; v2 PROXY/LOCAL x TCP4/UDP4/TCP6/UDP6/UNSPEC, TLV blocks of 0/1/255 bytes; boundary addresses and ports) x payloads {0,1,5, chunk-hdr+-1, 4096-hdr+-1, 6000 bytes} x allow lists {none, contains peer, excludes peer, overlapping prefixes, IPv6} x IPv4/IPv6 peer x optional matcher forcing >4096 prefetched bytes; every split point for streams <=22 bytes, read deviations <=3 up to 40 bytes and <=2 (3 thorough) from a boundary menu beyond; real matcher + handler in a real route list followed by a remote_ip matcher for the declared source",
+		ID:          "C12",
+		Level:       "model_checking",
+		Rule:        "PROXY headers from an independent encoder (v1 TCP4/TCP6/UNKNOWN; v2 PROXY/LOCAL x TCP4/UDP4/TCP6/UDP6/UNSPEC, TLV blocks of 0/1/255 bytes; boundary addresses and ports) x payloads {0,1,5, chunk-hdr+-1, 4096-hdr+-1, 6000 bytes} x allow lists {none, contains peer, excludes peer, overlapping prefixes, IPv6} x IPv4/IPv6 peer x optional matcher forcing >4096 prefetched bytes; every split point for streams <=22 bytes, read deviations <=3 up to 40 bytes and <=2 (3 thorough) from a boundary menu beyond; real matcher + handler in a real route list followed by a remote_ip matcher for the declared source",
 		Assumptions: []string{"the send side (proxy handler writing a header to upstreams) and the sender->receiver composition are checked by the second part of this check"},
-		Scenarios: scenarios,
+		Scenarios:   scenarios,
 		Run: func(tier string, scAny any, rep *runner.Report) {
 			sc := scAny.(*Scn)
 			b := build(sc)
